@@ -4,7 +4,8 @@
 (* TLC checks that the storage-key codec is a bijection on the range (so   *)
 (* distinct exponents can never share a key) and where the code points     *)
 (* numpy / Python cannot store begin; every exponent is replayed through   *)
-(* construction, the raw view and back, pickling and a multiplication.     *)
+(* construction, the raw view and back, pickling, a multiplication and a   *)
+(* text file (as the only key and as the last of two keys in two names).   *)
 (***************************************************************************)
 EXTENDS Monomial
 
@@ -13,6 +14,7 @@ CONSTANTS Tier
 VARIABLES vec
 ExpRange == IF Tier = "quick"
          THEN (0..300) \cup {137 * k : k \in 0..400} \cup {55000 + 25 * k : k \in 0..100}
+              \cup {e \in SpecialExponents : e <= 57500}
          ELSE 0..57500
 Init == vec = [kind |-> "none"]
 Next == \/ vec.kind = "none" /\ \E b \in 0..57 : vec' = [kind |-> "block", b |-> b]
